@@ -130,8 +130,10 @@ class C02(Cfg):
                   "between the tables before and after a synchronised day is justified by a received record that is validly signed, names the synchronised "
                   "room, conforms, and whose author holds the needed right at the record's own date (all-rows right when replacing/deleting another author's row, "
                   "both rooms on a move); verdicts are independent of the relaying peer and of the rest of the batch (induction over the batch); a rejected record "
-                  "leaves the state unchanged. The full statement is proved for the intended checks (Defects.none); for the code as written (Defects.asImplemented) it is "
-                  "proved under an explicit guard and refuted without it by decide-checked witnesses (foreign source row of a reference, replaced reference, "
+                  "leaves the state unchanged. The full statement is proved for the intended checks (Defects.none) and, kind by kind, for every setting of the switches in "
+                  "which the checks of that kind are in place (C02_rows_when: rows and node deletion records; C02_references_when: references and their deletion records); "
+                  "for the code as written (Defects.asImplemented) it is proved at full strength under a guard that is a function of the switches still on (dayGuardD: a repaired "
+                  "switch contributes nothing) and refuted without it by decide-checked witnesses about explicit switch values (foreign source row of a reference, replaced reference, "
                   "entity change, room-less row overwritten, deletion record of another room / entity, absent JSON). "
                   "The model is tied to /repo by running the real services and the compiled model on the same structured adversarial op files and diffing "
                   "reject lists and the canonical content of _node, _edge and both deletion logs.")
